@@ -2,7 +2,7 @@
 LE = "__CPROVER_loop_entry"
 FN = "tinyjambu_clean"
 CLEAN_LOOP = {
-    "fn": FN, "idx": 0, "line": r"while \(size > 0\)",
+    "fn": FN, "idx": 0, "line": r"size > 0",
     "assigns": "d, size, __CPROVER_object_upto((unsigned char *)buf, size)",
     "inv": ("size <= LE(size) && d == (volatile unsigned char *)buf + (LE(size) - size) && "
             "((tjv_c < LE(size) - size) ==> ((unsigned char *)buf)[tjv_c] == 0) && "
